@@ -687,6 +687,105 @@ def oracle_containment(ctx, impl):
                      % (label, evs[0][1], plugins), replay=dict(events=evs, handlers=plugins, observations=obs))
 
 
+CA_POOL = ["beh:%s:%s" % (k, i) for k in ("ok", "cf", "ce", "inv", "key", "late", "val", "lf") for i in "ab"] + \
+          ["tcp:h.example:1", "x:y", "nocolon", "tcp:bad:port"]
+CA_FIXED = [[], ["beh:key:a"], ["beh:ok:a"], ["beh:key:a", "beh:ok:b", "beh:inv:a", "beh:ok:b", "beh:cf:a"], ["beh:ok:a", "beh:key:a"],
+            ["beh:key:a", "beh:ok:a"], ["beh:late:a", "beh:val:a", "x:y", "nocolon"], ["beh:ce:a"], ["beh:cf:a", "beh:cf:a"],
+            ["tcp:h.example:1", "beh:ce:b", "nocolon"], ["beh:lf:a"], ["beh:key:a", "beh:lf:a", "beh:lf:b"], ["beh:lf:a", "beh:ok:a"], ["beh:key:a", "beh:key:a", "beh:ok:a", "beh:ok:a"], ["beh:inv:a", "tcp:bad:port"]]
+
+
+def ca_outcome(impl, h):
+    if h.startswith("beh:"):
+        return impl.BEH_OUTCOME[h.split(":")[1]]
+    return ("HPending", None) if h == "tcp:h.example:1" else ("HRaises", "InvalidHintError")
+
+
+def correspond_connect_all(ctx, impl, rng, model_ok):
+    """TubConnector.connectToAll hint by hint on a real Tub: direct oracle (every hint considered, usable hints dialled
+    whatever the others raise, answered at once iff nothing is dialled, failed() at most once) and comparison with
+    lib/ConnectAll.v's connect_all on the same hint lists and behaviours"""
+    cases = [list(c) for c in CA_FIXED]
+    for _ in range(ctx.n(50, 1500)):
+        cases.append([rng.choice(CA_POOL) for _ in range(rng.randrange(0, 7))])
+    observed = []
+    for hints in cases:
+        o = impl.connect_all_probe(hints)
+        ctx.case(["connect-all", hints], nontrivial=True)
+        ctx.hist("connectToAll hints", len(hints))
+        observed.append(o)
+        distinct = []
+        for h in hints:
+            if h not in distinct:
+                distinct.append(h)
+        live = [h for h in distinct if ca_outcome(impl, h)[0] == "HPending"]
+        problem = None
+        if o is None or o["raised"]:
+            problem = "getReference raised %s" % (o and o["raised"])
+        elif sorted(o["attempted"]) != sorted(distinct):
+            problem = "hints considered: %r, hints of the FURL: %r" % (o["attempted"], distinct)
+        elif o["pending"] != len(live) or any(h not in o["valid"] for h in live):
+            problem = "%d connection attempts running, the usable hints are %r" % (o["pending"], live)
+        elif live and (o["failed"] != 0 or o["answered"] or not o["active"]):
+            problem = "a connection attempt is running but the connector reported failure (failed() x %d, answered %r)" % (o["failed"], o["answered"])
+        elif not live and (o["failed"] != 1 or not o["answered"] or o["active"]):
+            problem = "no hint is usable but getReference is unanswered / failed() ran %d times" % o["failed"]
+        if not problem and o.get("late") and o["late"]["n"]:
+            # second phase: the endpoints of the beh:lf hints refuse LATER; when nothing else is being dialled the connector must
+            # then report failure exactly once and answer getReference, otherwise keep waiting
+            la = o["late"]
+            still = [h for h in live if not h.startswith("beh:lf:")]
+            if la.get("raised"):
+                problem = "a connection refused later made the reactor turn raise %s" % la["raised"]
+            elif still and (la["failed"] != 0 or la["answered"] or la["pending"] != len(still)):
+                problem = "after the late refusals %r are still being dialled, but failed() ran %d times / answered %r" % (still, la["failed"], la["answered"])
+            elif not still and (la["failed"] != 1 or not la["answered"] or la["active"]):
+                problem = ("every connection attempt has been refused by now (late), but getReference is %s and failed() ran %d times"
+                           % ("answered" if la["answered"] else "STILL UNANSWERED", la["failed"]))
+        if problem:
+            ctx.fail("oracle/hint-exception-not-contained", "TubConnector for the hints %r (beh:<kind>: ok = endpoint that never answers, lf = endpoint that refuses later, cf / ce = "
+                     "endpoint.connect() fails / raises, inv / key / val / late = the handler raises InvalidHintError / KeyError / ValueError / "
+                     "returns a failed Deferred): %s" % (hints, problem),
+                     replay=dict(hints=hints, observed=o, python="harness.c20_impl.connect_all_probe(%r)" % (hints,)))
+    ctx.extra["connect_all_cases"] = len(cases)
+    if not model_ok:
+        return
+
+    def outc(h):
+        k, e = ca_outcome(impl, h)
+        return "HPending" if e is None else '(%s "%s")' % (k, e)
+    rows = []
+    for hints in cases:
+        table = coq_list(["(%s%%Z, %s)" % (zs(h), outc(h)) for h in sorted(set(hints))])
+        rows.append("(%s, %s)" % (table, coq_list([zs(h) + "%Z" for h in reversed(hints)])))
+    body = ("\nDefinition cases : list (list (list Z * houtcome) * list (list Z)) := " + coq_list(rows) + ".\n"
+            "Definition lookupb (t : list (list Z * houtcome)) (h : list Z) : houtcome :=\n"
+            "  match find (fun p => list_eqb h (fst p)) t with Some p => snd p | None => HRaises \"InvalidHintError\" end.\n"
+            "Definition rcode (o : option string) : string := match o with Some x => x | None => \"\"%string end.\n"
+            "Eval vm_compute in map (fun c => let '(a, v, p, st, r, act, f) := obs (connect_all (lookupb (fst c)) (snd c)) in "
+            "(a, v, (p, f), st, (rcode r, act))) cases.\n")
+    try:
+        (vals,) = ctx.coq_eval("C20_connect_all", body, requires=["Verif.lib.PyLite", "Verif.lib.ConnectAll"])
+    except common.CoqEvalError as e:
+        ctx.fail("correspondence-broken", "the connectToAll model could not be evaluated: " + tail(str(e), 1200), has_input=False)
+        return
+    bad = 0
+    txt = lambda l: "".join(chr(c) for c in l)
+    for hints, o, v in zip(cases, observed, vals):
+        ctx.traces += 1
+        if o is None:
+            continue
+        a, va, (p, f), st, (r, act) = v
+        mine = dict(attempted=[txt(x) for x in a], valid=[txt(x) for x in va], pending=p, statuses=[[txt(h), c] for h, c in st],
+                    reason=r or None, active=act, failed=f)
+        theirs = {k: o[k] for k in mine}
+        if mine != theirs:
+            bad += 1
+            if bad <= 2:
+                ctx.fail("correspondence/connect-all", "model and TubConnector disagree on the hints %r: model %r, implementation %r"
+                         % (hints, mine, theirs), replay=dict(hints=hints, model=mine, impl=theirs), has_input=False)
+    ctx.extra["connect_all_disagreements"] = bad
+
+
 # ------------------------------------------------------------------------------ SturdyRefs that arrive as copies
 
 TUBS3 = ["q5l37rle6pojjnllrwjyryulavpqdlq5", "u5vgfpug7qhkxdtj76tcfh6bmzyo6w5s", "abc"]
@@ -779,6 +878,17 @@ def oracle_identity_copies(ctx, impl, rng):
 
 def correspond_identity(ctx, pairs):
     """the model's sref_eqb on the same (tub id, name) pairs"""
+    # replay of FurlProofs.sturdy_lt_incomplete on the real class: a reference without a URL cannot be ordered against a complete one
+    from foolscap.referenceable import SturdyRef
+    from harness import c20_impl as _impl
+    inc = [_impl.lt_verdict(SturdyRef(), SturdyRef("pb://a@h:1/n")), _impl.lt_verdict(SturdyRef("pb://a@h:1/n"), SturdyRef()),
+           _impl.lt_verdict(SturdyRef(), SturdyRef())]
+    ctx.note("SturdyRef() < SturdyRef(furl), SturdyRef(furl) < SturdyRef(), SturdyRef() < SturdyRef() on the real class: %r "
+             "(model sturdy_lt_incomplete: TypeError, TypeError, False); ordering is not part of the property: recorded, not judged" % (inc,))
+    ctx.extra["sturdy_lt_incomplete_replay"] = [str(x) for x in inc]
+    if inc != ["TypeError", "TypeError", False]:
+        ctx.fail("correspondence/sturdyref-lt", "references without a URL: the real class gives %r, the model TypeError, TypeError, False" % (inc,),
+                 replay=dict(observed=[str(x) for x in inc]), has_input=False)
     rows = ["(%s%%Z, %s%%Z, %s%%Z, %s%%Z)" % (zs(a), zs(b), zs(c), zs(d)) for a, b, c, d, _, _ in pairs]
     rows = rows[:2000]
     body = ("\nDefinition cases : list (list Z * list Z * list Z * list Z) := " + coq_list(rows) + ".\n"
@@ -1005,23 +1115,44 @@ def timing(ctx, impl):
 
 
 def corpus(ctx, impl):
+    ws = []
     for path in sorted(glob.glob(os.path.join(common.VERIF, "corpus", "C20", "*.json"))):
         w = json.load(open(path))
-        s = "".join(p * k for p, k in w["parts"])
-        # judged on CPU time (the child limits its own CPU time); the wall-clock limit is only a backstop for a loaded machine
-        pts, started, timed_out, err = run_probe(dict(parts=w["parts"], kind=w["kind"], cpu_limit=w.get("limit_s", 2.0)), 240.0)
-        if timed_out and started is None and not pts:
-            ctx.note("corpus probe %s: the child process did not reach the call within the wall-clock backstop (machine load); skipped" % os.path.basename(path))
-            continue
-        name = os.path.basename(path)
+        w["name"] = os.path.basename(path)
+        ws.append(w)
+    # all witnesses in one child process (one interpreter start-up), each under its own CPU-time limit; when the kernel
+    # ends the child on a witness (SIGXCPU) that witness has failed and the remaining ones go to a new child.
+    # Judged on CPU time; the wall-clock limit is only a backstop for a loaded machine.
+    verdict = {}                        # name -> ("ok", cpu seconds) | ("timeout", None) | ("skipped", why)
+    todo = list(ws)
+    while todo:
+        batch = [dict(name=w["name"], parts=w["parts"], kind=w["kind"], cpu_limit=w.get("limit_s", 2.0)) for w in todo]
+        pts, started, timed_out, err = run_probe(dict(batch=batch), 240.0 + 20.0 * len(batch))
+        for p in pts:
+            verdict[p["name"]] = ("ok", p["t"])
+        if timed_out and started is not None:
+            verdict[started["name"]] = ("timeout", None)
+        elif err or timed_out:
+            first = next(w for w in todo if w["name"] not in verdict)
+            verdict[first["name"]] = ("skipped", tail(err, 600) if err else "the child process did not reach the call within the wall-clock backstop")
+        left = [w for w in todo if w["name"] not in verdict]
+        if len(left) == len(todo):
+            break
+        todo = left
+    for w in ws:
+        name, s = w["name"], "".join(p * k for p, k in w["parts"])
+        kind, t = verdict.get(name, ("skipped", "not run"))
         ctx.case(["corpus", name], nontrivial=True)
-        if err:
-            ctx.fail("harness-exception", "corpus probe %s failed: %s" % (name, tail(err, 1500)), has_input=False)
+        if kind == "skipped":
+            if "did not reach" in str(t) or t == "not run":
+                ctx.note("corpus probe %s: %s (machine load); skipped" % (name, t))
+            else:
+                ctx.fail("harness-exception", "corpus probe %s failed: %s" % (name, t), has_input=False)
             continue
-        if timed_out or not pts or pts[-1]["t"] > w.get("limit_s", 2.0):
+        if kind == "timeout" or t > w.get("limit_s", 2.0):
             ctx.fail("oracle/superlinear-hint" if w["kind"] == "hint" else "oracle/furl-quadratic",
                      "regression witness %s: %r... (%d chars) took %s" % (name, s[:40], len(s),
-                                                                          "more than the time limit" if timed_out or not pts else "%.2f s" % pts[-1]["t"]),
+                                                                          "more than %.1f s of CPU" % w.get("limit_s", 2.0) if kind == "timeout" else "%.2f s" % t),
                      replay=dict(witness=name, parts=w["parts"]))
             continue           # never run it in-process
         if w["kind"] == "hint":
@@ -1057,7 +1188,17 @@ def model_steps(ctx, impl):
 
 # ------------------------------------------------------------------------------ entry point
 
+def _phase(ctx, label, _state={}):
+    """CPU seconds (this process + finished children) spent since the previous call, kept in the evidence"""
+    t = os.times()
+    now = t.user + t.system + t.children_user + t.children_system
+    if "last" in _state:
+        ctx.extra.setdefault("phase_cpu_s", {})[label] = round(now - _state["last"], 1)
+    _state["last"] = now
+
+
 def run(ctx):
+    _phase(ctx, "start")
     ctx.rule = ("regex cases = (pattern, string): every string of length <= L over a 7..10-symbol alphabet behind the pattern's "
                 "literal prefix, grammar-generated hints/FURLs and 1-2 character mutations of them (special characters "
                 ": . [ ] %% - , / @ newline, non-ASCII digits, Kelvin sign, NUL); function cases = FURL strings through "
@@ -1074,15 +1215,18 @@ def run(ctx):
         "the handlers are exercised up to the endpoint constructor (tor: _maybe_connect returns at once; i2p: constructor arguments recorded)",
         "six.ensure_str on bytes = strict UTF-8 decoding is hand-modelled (Furl.utf8_dec) and compared with the real decode_furl on bytes; non-str/bytes arguments (TypeError) are outside the quantifier",
         "a third-party plugin is abstracted to the outcome of its hint_to_endpoint per hint (endpoint / exception class); a Deferred it returns is taken at its final result",
-        "TubConnector.connectToAll's per-hint containment is not in the Coq model: oracle on a real Tub with raising plugins only",
+        "TubConnector.connectToAll / _connectionFailed / checkForFailure / failed are hand-modelled (lib/ConnectAll.v: endpoints that are dialled never answer), tied by ordered shape facts and compared with real TubConnectors on every run; _connectionFailed's own logging / str(reason.value) is assumed not to raise",
+        "get_endpoint's status / logging effects (connectionInfo._describe_connection_handler, _set_connection_status, describe_handler, log.err) are dropped by the translation and assumed not to raise",
     ]
     ok, log = ctx.coq_build(["props/C20.vo"])
     from harness import c20_impl as impl
     before = len(ctx.failures)
     rng = ctx.rng
 
+    _phase(ctx, "coq build")
     # 0. regression witnesses (each one first in a child process with a time limit)
     corpus(ctx, impl)
+    _phase(ctx, "corpus witnesses")
 
     # 1. inputs
     hints = []
@@ -1140,6 +1284,7 @@ def run(ctx):
     seen_f = set(furls)
     furls += [f for f in enc[:ctx.n(400, 20000)] if not (f in seen_f or seen_f.add(f))]
 
+    _phase(ctx, "generation + encode/decode oracle")
     # 2. direct oracle on the real code
     n_acc = 0
     for k, f in enumerate(tub_stream):
@@ -1177,6 +1322,7 @@ def run(ctx):
     ctx.sample(dict(hint=hints[0], handlers=hint_cases[0][1], result=repr(impl.get_endpoint(*hint_cases[0]))))
     ctx.sample(dict(hint=hints[1], handlers=hint_cases[1][1], result=repr(impl.get_endpoint(*hint_cases[1]))))
 
+    _phase(ctx, "direct oracle")
     # 3. correspondence with the Coq model
     model_ok = ok
     if not ok:
@@ -1212,10 +1358,15 @@ def run(ctx):
         if ok:
             model_steps(ctx, impl)
 
+    _phase(ctx, "regex / function / bytes correspondence")
     # 3a. identity of references that arrive as copies; getReference histories on one real Tub
     id_pairs = oracle_identity_copies(ctx, impl, rng)
     tub_cases = oracle_tub_histories(ctx, impl, rng)
     oracle_containment(ctx, impl)
+    ok_ca = model_ok
+    if model_ok and not ok:
+        ok_ca, _ = ctx.coq_build(["lib/ConnectAll.vo"])
+    correspond_connect_all(ctx, impl, rng, ok_ca)
     if model_ok:
         correspond_identity(ctx, id_pairs)
         ok_c = True
@@ -1224,6 +1375,7 @@ def run(ctx):
         if ok_c:
             correspond_tub(ctx, tub_cases)
 
+    _phase(ctx, "identity copies / tub histories / connectToAll")
     # 3b. history independence (last of the in-process checks: on a defective tree it leaves altered results behind)
     hist_pool = [s for s, d in zip(furls, decoded) if d is not None and len(d[1]) >= 1][:ctx.n(120, 2000)]
     hist_pool += [s for s, d in zip(furls, decoded) if d is not None and len(d[1]) == 0][:ctx.n(12, 100)]
@@ -1231,8 +1383,10 @@ def run(ctx):
     hist_pool += ["pb://q5l37rle6pojjnllrwjyryulavpqdlq5@tcp:one.example.com:9900,tor:abcdefghij234567.onion:80,10.0.0.7:9901/swissnumber/with/slashes"]
     oracle_history(ctx, impl, hist_pool)
 
+    _phase(ctx, "history independence")
     # 4. CPU time growth (child processes)
     timing(ctx, impl)
+    _phase(ctx, "cpu-time families")
 
     if not ok:
         # reported even when the oracle also found something: a listed known finding must not mask a broken proof
